@@ -1,0 +1,34 @@
+//go:build verif
+// +build verif
+
+package core
+
+import (
+	"strconv"
+
+	"com.tuntun.rangers/node/src/common"
+	"com.tuntun.rangers/node/src/middleware/log"
+	"com.tuntun.rangers/node/src/middleware/types"
+	"com.tuntun.rangers/node/src/storage/account"
+)
+
+// VerifC01InitLoggers sets the package loggers the way InitCore does, without
+// opening the chain stores (the block executor only logs through them).
+func VerifC01InitLoggers() {
+	logger = log.GetLoggerByIndex(log.CoreLogConfig, strconv.Itoa(common.InstanceIndex))
+	txLogger = log.GetLoggerByIndex(log.TxLogConfig, strconv.Itoa(common.InstanceIndex))
+	syncLogger = log.GetLoggerByIndex(log.SyncLogConfig, strconv.Itoa(common.InstanceIndex))
+	syncHandleLogger = log.GetLoggerByIndex(log.SyncHandleLogConfig, strconv.Itoa(common.InstanceIndex))
+	rewardLog = log.GetLoggerByIndex(log.RewardLogConfig, strconv.Itoa(common.InstanceIndex))
+}
+
+// VerifC01Execute runs the block executor exactly as checkStates / runTransactions /
+// verifyStateAndReceipt do: a new VMExecutor (fresh context map) on the given state.
+func VerifC01Execute(accountdb *account.AccountDB, block *types.Block, situation string) (common.Hash, []common.Hash, []*types.Transaction, []*types.Receipt) {
+	return newVMExecutor(accountdb, block, situation).Execute()
+}
+
+// VerifC01ReceiptsRoot is calcReceiptsTree.
+func VerifC01ReceiptsRoot(receipts types.Receipts) common.Hash {
+	return calcReceiptsTree(receipts)
+}
